@@ -262,7 +262,7 @@ def run(ctx):
     cases = []
     for pth in sorted(glob.glob(os.path.join(VERIF, "corpus", ID, "*.json"))):
         cases.append(json.load(open(pth))["case"])
-    cases += gen_cases(ctx, ctx.n(160, 1500))
+    cases += gen_cases(ctx, ctx.n(160, 1000))
     reals, reqs = [], []
     for c in cases:
         r = real_case(c)
